@@ -51,6 +51,7 @@ type scaleFam struct {
 	Dense int // thorough: every n up to here (default 1100)
 	All   bool // every n up to Max at both tiers (a family that is a list of fixed programs)
 	Build func(n int) scaleCase
+	Custom func(c *fw.Ctx, n int) *fw.Violation // instead of Build: a check of its own for size n
 }
 
 type scaleSpec struct {
@@ -143,6 +144,16 @@ func normNumbers(v any) any {
 }
 
 func scaleCheck(c *fw.Ctx, f *scaleFam, n int) *fw.Violation {
+	if f.Custom != nil {
+		if c.Prop.ID != f.Prop {
+			return nil
+		}
+		v := f.Custom(c, n)
+		if v != nil {
+			v.What = fmt.Sprintf("%s, n = %d: %s", f.Name, n, v.What)
+		}
+		return v
+	}
 	sc := f.Build(n)
 	if c.Prop.ID == "C01" {
 		return scaleCrash(c, f, n, sc)
